@@ -5,8 +5,11 @@ package main
 
 import (
 	"fmt"
+	"os"
+	"path/filepath"
 	"strconv"
 	"strings"
+	"syscall"
 
 	"github.com/Ptt-official-app/go-pttbbs/bbs"
 	"github.com/Ptt-official-app/go-pttbbs/ptttype"
@@ -87,7 +90,9 @@ func main() {
 	run.Rule = "names: all 4096 suffixes x {M,G} at boundary times + random names in the domain; per digit position all 64 digit values; malformed stream: every byte value at every id position, lengths 0..12, out-of-domain times (recorded, not judged). distinct = distinct op lines; nontrivial = reaches the codec with a well-formed input or a distinct malformed class"
 
 	if run.Replay != "" {
-		for _, l := range hx.ReplayOps(run.Replay) {
+		ops := hx.ReplayOps(run.Replay)
+		handOverDesignation(ops)
+		for _, l := range ops {
 			do(l, true)
 		}
 		return
@@ -233,6 +238,24 @@ func main() {
 		do("fn2aidu "+hx.Hex(f[:]), false)
 		do("toaid "+hx.Hex(f[:]), false)
 	}
+}
+
+// handOverDesignation: a replay that is a designation history (pass `designate`, go/cmd/c13d) belongs to the
+// other harness of this property. `./check --replay` routes a replay recorded from a corpus run to the first pass,
+// i.e. to this binary; it then continues as the sibling binary c13d with the same arguments.
+func handOverDesignation(ops []string) {
+	if len(ops) == 0 || !strings.HasPrefix(ops[0], "reset ") {
+		return
+	}
+	self, err := os.Executable()
+	if err != nil {
+		return
+	}
+	sib := filepath.Join(filepath.Dir(self), "c13d")
+	if _, err := os.Stat(sib); err != nil {
+		return
+	}
+	_ = syscall.Exec(sib, append([]string{sib}, os.Args[1:]...), os.Environ())
 }
 
 func base2(l int, r *hx.Rand) []byte {
